@@ -284,3 +284,45 @@ Proof.
   injection Hp as Hp. rewrite <- Hp in *. cbn [length app] in Hl.
   unfold dflt_pid. rewrite C03_tcpascii.C03_build_tcp; [reflexivity| | | | |]; lia.
 Qed.
+
+(* ================================================================== A'. unassigned function codes
+   A PDU whose function code is not in ServerDecoder's table decodes to IllegalFunctionRequest
+   (C01_dispatch_server); its execute() attributes are req0 fc = ExecView.decode_attrs (WOther fc). *)
+Definition unassigned (fc : Z) : bool := negb (existsb (Z.eqb fc) (x_known_fcs GenExec.code)).
+
+Lemma unassigned_class fc : unassigned fc = true -> spec_request_class fc = None.
+Proof.
+  intros H. unfold unassigned in H. apply negb_true_iff in H. unfold spec_request_class.
+  repeat match goal with
+         | |- context [if ?x =? ?k then _ else _] =>
+             destruct (Z.eqb_spec x k) as [->|_]; [vm_compute in H; discriminate H|]
+         end.
+  reflexivity.
+Qed.
+
+Theorem decode_unassigned fc rest : 0 <= fc -> unassigned fc = true ->
+  py_decode true (Z.to_N fc :: rest) = Ok (OIllegal fc).
+Proof.
+  intros H0 Hu. unfold py_decode, py_decode_server. cbn [data0 bind]. rewrite Z2N.id by exact H0.
+  rewrite C01.C01_dispatch_server, (unassigned_class fc Hu). reflexivity.
+Qed.
+
+(* a request body of the proved domain together with its data-model form *)
+Definition body_ok (b : sreq) (w : wreq) : Prop :=
+  match b with
+  | QMsg m => wreq_of_msg m = Some w /\ spec_wf m = true
+  | QRaw fc rest => w = WOther fc /\ 1 <= fc < 128 /\ unassigned fc = true /\ (length rest <= 252)%nat
+  end.
+
+Lemma body_wreq b w : body_ok b w -> wreq_of b = Some w.
+Proof. destruct b; cbn [body_ok wreq_of]; [tauto|]. intros (-> & _). reflexivity. Qed.
+
+Theorem decode_body b w : body_ok b w ->
+  exists o r, py_decode true (sreq_pdu b) = Ok o /\ obj_fc o = Ok (wfc w) /\
+              req_of_obj o = Some r /\ decode_attrs w = Ok r.
+Proof.
+  destruct b as [m|fc rest]; cbn [body_ok sreq_pdu].
+  - intros [Hw Hwf]. exact (decode_request m w Hw Hwf).
+  - intros (-> & Hfc & Hu & _). exists (OIllegal fc), (req0 fc).
+    split; [apply decode_unassigned; [lia|exact Hu]|]. repeat split; reflexivity.
+Qed.
